@@ -440,7 +440,7 @@ async def shard_main(sh: Shard):
             # at least ~48 (quick) / ~320 (thorough) scenarios over all shards, whatever the machine load
             if n >= max(sh.pick(3, 20), -(-sh.pick(48, 320) // sh.nshards)) and sh.out_of_budget():
                 break
-            if n >= sh.pick(400, 6000) or sum(1 for v in sh.violations if not v["mechanism"]) >= 12:
+            if n >= sh.pick(400, 6000) or sum(1 for v in sh.violations if not v["mechanism"]) >= 6:
                 break
             case = gen_case(rng)
             await run_case(env, sh, case, stats, sample=(n == 1 and sh.shard < 3))
